@@ -39,6 +39,8 @@ RULE = (
 ASSUMPTIONS = [
     "FIFO order = order in which plug-ins are processed (observed from the real run, so no assumption on how the event heap orders simultaneous arrivals)",
     "scheduler: uncontrolled charging at every period (max_recompute=1); the placement logic does not depend on the scheduler",
+    "direct block: the network driven operation by operation without a simulator (arrive / depart / end of period / register a station while nobody waits), every sequence up to the depth x every choice answer",
+    "hash-seed differential: 240 four/five-session histories on three stations x seeds 0-2 re-run in 4 child interpreters with different PYTHONHASHSEED, digests compared",
     "random.choice is the only randomness of the network (the shim raises on any other use of the random module)",
 ]
 CHUNK = 16
@@ -97,7 +99,145 @@ def space(tier, seed):
                     continue  # more stations than sessions: only the k=1 cases keep it (nobody can ever wait)
                 for early in (False, True):
                     items.append({"types": list(combo), "ns": ns, "early": early})
+    # direct block: the network driven without a simulator, operation by operation (arrive / depart / end of period /
+    # a station added to the live site), sharded by the first two operations
+    for early in (False, True):
+        for first in DIRECT_OPS:
+            for second in DIRECT_OPS:
+                items.append({"direct": True, "early": early, "prefix": [first, second], "depth": 6 if tier == "quick" else 7})
     return items
+
+
+# ----------------------------------------------------------------------------------------------------
+# direct block
+# ----------------------------------------------------------------------------------------------------
+DIRECT_OPS = [["arr", 0], ["arr", 1], ["arr", 2], ["dep", 0], ["dep", 1], ["dep", 2], ["end"], ["reg"]]
+
+
+def direct_once(early, ops, chooser):
+    """apply the operation list to a fresh StochasticNetwork (one station at first); returns (violations, enabled?, waited)"""
+    viol = []
+    net = SN.StochasticNetwork(early_departure=early)
+    net.register_evse(EVSE("S0", max_rate=32), 208, 0)
+    evs = [
+        EV(0, 9, 60.0, "nowhere", "ev0", Battery(100.0, 0.0, 7.0)),
+        EV(0, 9, 0.4, "S0", "ev1", Battery(10.0, 5.0, 7.0)),  # met after one period at 32 A
+        EV(0, 9, 60.0, "S1", "ev2", Battery(100.0, 0.0, 7.0)),
+    ]
+    st, wait, gone, arrived = {"S0": None}, [], set(), set()
+    never = 0
+    waited = False
+
+    def rep(sig, what, o=None, e=None):
+        viol.append((sig, what, o, e))
+
+    def real():
+        return {s_: (net._EVSEs[s_].ev.session_id if net._EVSEs[s_].ev is not None else None) for s_ in net.station_ids}, list(net.waiting_queue.keys())
+
+    old = SN.random
+    SN.random = Shim(chooser)
+    try:
+        with warnings.catch_warnings():
+            warnings.simplefilter("ignore")
+            for k, op in enumerate(ops):
+                where = "after operation %d %s" % (k, op)
+                if op[0] == "arr":
+                    ev = evs[op[1]]
+                    if ev.session_id in arrived:
+                        return viol, False, waited
+                    free = [s_ for s_, v in st.items() if v is None]
+                    net.plugin(ev)
+                    arrived.add(ev.session_id)
+                    occ, wq = real()
+                    if free:
+                        got = [s_ for s_ in free if occ.get(s_) == ev.session_id]
+                        if len(got) != 1:
+                            rep("direct:arrival-not-on-a-free-station", "%s: free stations %s, now stations %s, waiting %s" % (where, free, occ, wq), occ, free)
+                            return viol, True, waited
+                        st[got[0]] = ev.session_id
+                    else:
+                        wait.append(ev.session_id)
+                elif op[0] == "dep":
+                    ev = evs[op[1]]
+                    if ev.session_id not in arrived or ev.session_id in gone:
+                        return viol, False, waited
+                    net.unplug(ev.station_id, ev.session_id)
+                    sid = ev.session_id
+                    gone.add(sid)
+                    if sid in wait:
+                        wait.remove(sid)
+                        never += 1
+                    else:
+                        s_ = [k_ for k_, v in st.items() if v == sid][0]
+                        st[s_] = wait.pop(0) if wait else None
+                elif op[0] == "reg":
+                    # a station is added to the live site - while nobody waits (nothing admits a waiting EV then)
+                    if wait or len(st) >= 3:
+                        return viol, False, waited
+                    name = "S%d" % len(st)
+                    net.register_evse(EVSE(name, max_rate=32), 208, 0)
+                    st[name] = None
+                else:  # end of a period: the connected EVs charge, then the network's end-of-period update
+                    full = []
+                    for s_ in net.station_ids:
+                        e_ = net._EVSEs[s_].ev
+                        if e_ is not None:
+                            e_.charge(32.0, 208, 5)
+                            if e_.fully_charged:
+                                full.append((s_, e_.session_id))
+                    net.post_charging_update()
+                    if early:
+                        for s_, sid in full:
+                            if wait:
+                                st[s_] = wait.pop(0)
+                                gone.add(sid)
+                occ, wq = real()
+                if wq:
+                    waited = True
+                if wq and any(v is None for v in occ.values()):
+                    rep("direct:starvation", "%s: %s wait(s) while %s free" % (where, wq, [s_ for s_, v in occ.items() if v is None]), wq, [])
+                    break
+                if occ != st or wq != wait:
+                    rep("direct:placement", "%s: stations %s waiting %s, first-come-first-served model: stations %s waiting %s" % (where, occ, wq, st, wait), [occ, wq], [dict(st), list(wait)])
+                    break
+                if net.never_charged != never:
+                    rep("direct:never_charged", "%s: never_charged=%d, model %d" % (where, net.never_charged, never), net.never_charged, never)
+                    break
+    except Exception as exc:
+        guard(exc)
+        rep("direct:exception:%s" % type(exc).__name__, "operation sequence %s raised %r" % (ops, exc), repr(exc), None)
+    finally:
+        SN.random = old
+    return viol, True, waited
+
+
+def run_direct(item, acc):
+    """every enabled operation sequence extending the prefix up to the depth x every owned random.choice answer"""
+    early, depth = item["early"], item["depth"]
+
+    def rec(ops):
+        enabled_any = False
+        for choices, res in explore_choices(lambda ch: direct_once(early, ops, ch)):
+            viol, enabled, waited = res
+            if not enabled:
+                return False
+            enabled_any = True
+            acc.evals += 1
+            acc.transitions += len(ops)
+            acc.outcome(("direct", len(viol), waited))
+            acc.state(("direct", early, tuple(map(tuple, ops)), tuple(choices)))
+            if waited:
+                acc.nt(("direct", early, tuple(map(tuple, ops)), tuple(choices)))
+            for sg, w, o, e in viol:
+                acc.violation(sg, w, {"direct": True, "early": early, "ops": ops, "choices": list(choices)}, o, e)
+            if viol:
+                return True
+        if enabled_any and len(ops) < depth:
+            for op in DIRECT_OPS:
+                rec(ops + [op])
+        return enabled_any
+
+    rec(list(item["prefix"]))
 
 
 def build(item, chooser_shim=None):
@@ -335,6 +475,10 @@ def execute(item, only_choices=None):
 
 def run(item):
     acc = Acc()
+    if item.get("direct"):
+        run_direct(item, acc)
+        acc.sample({"direct_prefix": item["prefix"], "early_departure": item["early"], "depth": item["depth"]}, cap=1)
+        return acc
     viol, st = execute(item)
     acc.evals += st["execs"]
     acc.transitions += st["periods"]
@@ -354,6 +498,13 @@ def run(item):
 
 
 def replay(scn):
+    if scn.get("hashseed"):
+        return hashseed_check()
+    if scn.get("direct"):
+        from mc.engines import Chooser
+
+        viol, _, _ = direct_once(scn["early"], scn["ops"], Chooser(scn.get("choices") or []))
+        return [{"signature": v[0], "what": v[1], "observed": v[2], "expected": v[3]} for v in viol]
     item = {k: scn[k] for k in ("types", "ns", "early")}
     ch = scn.get("choices")
     if ch and ch[0] == "seed":
@@ -361,3 +512,51 @@ def replay(scn):
     else:
         viol, _ = execute(item, only_choices=ch or [])
     return [{"signature": v[0], "what": v[1], "observed": v[2], "expected": v[3]} for v in viol]
+
+
+# ----------------------------------------------------------------------------------------------------
+# reproducibility across interpreter processes: a fixed random seed gives the same run whatever the string-hash seed
+# ----------------------------------------------------------------------------------------------------
+def digest():
+    import hashlib, json
+
+    h = hashlib.sha256()
+    # three stations, early departure, at least three sessions that are satisfied after the first period plus one more
+    # (which of several satisfied EVs gives up its space, and which station a waiting EV gets, must not depend on
+    # anything but the random seed)
+    met0 = [i for i, (a, d, e) in enumerate(TYPES) if a == 0 and e == "met"]
+    items = []
+    for three in itertools.combinations_with_replacement(met0, 3):
+        for fourth in range(len(TYPES)):
+            if TYPES[fourth][0] >= 1:
+                items.append({"types": sorted(list(three) + [fourth]), "ns": 3, "early": True})
+                items.append({"types": sorted(list(three) + [fourth, fourth]), "ns": 3, "early": True})
+    for it in items:
+        for sd in (0, 1, 2):
+            _random.seed(sd)
+            v, info, out = run_once(it, None)
+            h.update(json.dumps([it["types"], it["ns"], sd, out, len(v)], sort_keys=True, default=repr).encode())
+    return h.hexdigest()
+
+
+def hashseed_check():
+    import os, subprocess, sys
+
+    outs = {}
+    for hs in ("0", "1", "4242", "77"):
+        env = dict(os.environ, PYTHONHASHSEED=hs)
+        r = subprocess.run([sys.executable, "-W", "ignore", "-m", "mc.props.c19"], capture_output=True, text=True, env=env, cwd=os.path.dirname(os.path.dirname(os.path.dirname(os.path.abspath(__file__)))))
+        outs[hs] = r.stdout.strip().splitlines()[-1] if r.returncode == 0 and r.stdout.strip() else "child failed: " + r.stderr[-300:]
+    if len(set(outs.values())) != 1:
+        return [{"signature": "seed:not-reproducible-across-processes", "what": "runs under the same random.seed differ between interpreter processes with different PYTHONHASHSEED (histories with three satisfied EVs on three stations + late arrivals, early departure, seeds 0-2)", "observed": outs, "expected": "identical digests"}]
+    return []
+
+
+def finalize(total, tier, seed):
+    for v in hashseed_check():
+        total.violation(v["signature"], v["what"], {"hashseed": True}, v["observed"], v["expected"])
+    total.count("hashseed_children", 4)
+
+
+if __name__ == "__main__":
+    print(digest())
